@@ -5,6 +5,10 @@ package aeskw
 // Contracts for govc (contract-based deductive verification; see /verif/DESIGN.md).
 // This file holds only comments and is compiled only with -tags verif.
 
+// C17's quantifier is "every exported function of this package taking []byte": the check fails for one without a
+// contract tagged C17 that has a modifies clause.
+//@ coverage exported-bytes C17
+
 //@ func arrXor
 //@   tags C07 C17
 //@   requires len(arrR) >= len(arrL)
